@@ -31,6 +31,11 @@ fn main() {
     let out = arg(&args, "--out");
     nv::node::cap_memory(12 << 30);
     let ctx = Ctx::new(&prop, tier, seed, worker, workers, known);
+    // threads that nun-db starts itself (HTTP workers, ...) have no per-thread directory: give the
+    // process-wide default (NUN_DBS_DIR is read once) a scratch directory of its own
+    let default_dir = ctx.scratch.join("default");
+    std::fs::create_dir_all(&default_dir).unwrap();
+    std::env::set_var("NUN_DBS_DIR", &default_dir);
     let mut rep = Report { property: prop.clone(), tier: if ctx.quick() { "quick".into() } else { "thorough".into() }, seed, worker, ..Default::default() };
     let t0 = Instant::now();
     let code = if let Some(path) = arg(&args, "--replay") {
